@@ -32,10 +32,12 @@ class SChar(Sym):
 
 class Digits:
     """String piece: decimal representation of n >= 0, zero-padded to at least `width` (only [0-9], non-empty)."""
-    __slots__ = ('n', 'width', 't')
+    __slots__ = ('n', 'width', 't', 'single', 'alphabet')
 
-    def __init__(self, n, width, t):
+    def __init__(self, n, width, t, single=False, alphabet='0123456789'):
         self.n, self.width, self.t = n, width, t
+        self.single = single      # known to be exactly one character: alphabet[n]
+        self.alphabet = alphabet
 
     def __repr__(self):
         return f'Digits<{self.n},{self.width}>'
